@@ -16,7 +16,7 @@ inst, save, conv, wrap.
 
 Polynomial workbench (kind "po"): three registers holding util.poly.Polynomial values over the atoms Var x, y, z :: real.
 Operations: load (Polynomial([Monomial(c, factors), ...])), add, sub, mul, neg, scale, pow, rot, look, laws (both sides of every
-ring law computed by the code, and the basic results), hash.
+ring law computed by the code, and the basic results), hash (observed, not judged: the module defines none).
 
 Values are projected through raw fields (harness.codec for types; Polynomial.monomials / Monomial.coeff / Monomial.factors).
 No verdict is computed here; every exception of the code under test becomes the outcome of the event.
